@@ -51,7 +51,7 @@ type variant struct {
 	name      string
 	coop      bool
 	tv1       bool
-	joinAfter int // B is created after A's joinAfter-th round
+	joinAfter int  // B is created after A's joinAfter-th round
 	slowBegin bool // the application's processing time lies between the poll and Begin (a rebalance lands after the poll, before the transaction is open)
 }
 
@@ -491,6 +491,10 @@ func allowEndWindows(fromCost int) func(parent explore.Job, point int, label str
 
 // Plans returns the exploration plans of the ETL scenario family.
 func Plans() []nrun.Plan { return plans }
+
+// AllPlans is what the C10 check runs: the generated family first, then the
+// hand-written scenarios.
+func AllPlans() []nrun.Plan { return append(GenPlans(), plans...) }
 
 var plans = []nrun.Plan{
 	{Scenario: scenario(variant{name: "ETL-coop", coop: true, joinAfter: 2}), QuickBudget: 1, ThoroughBudget: 2, Weight: 1, Allow: allowByTier()},
